@@ -336,7 +336,7 @@ func (m nsIQMatcher) Match(p stanza.Packet, match *RouteMatch) bool {
 	if iq.Payload == nil {
 		return false
 	}
-	return matchInArray(m, iq.Payload.Namespace())
+	return matchInArray(m, strings.ToLower(iq.Payload.Namespace()))
 }
 
 // IQNamespaces adds an IQ matcher, expecting both an IQ and a
